@@ -10,7 +10,7 @@ import vlib, cases
 from ledger import vdrive
 
 MC = dict(Keys={"k1", "k2", "k3"}, Arity={1, 2})
-FAMILIES = ["benign", "stake", "deleg", "alleg", "eth", "erc20", "gov", "ons", "olvm"]
+FAMILIES = ["benign", "stake", "deleg", "alleg", "eth", "erc20", "gov", "ons", "olvm", "bid"]
 NSIG = {"STAKE": 2, "UNSTAKE": 2, "WITHDRAW": 2, "PROP_VOTE": 2}
 
 
